@@ -11,6 +11,9 @@ static Verdict run_c10(const Case &c)
   size_t nb = (size_t)c.geti("blocks");
   bytes in = expand((uint64_t)strtoull(c.get("pseed", "0").c_str(), NULL, 10), nb * 16, (int)c.geti("pstyle"));
   Verdict v;
+  int aoff = (int)c.geti("aoff") & 15; // address residue of the blocks handed to the stream objects
+  if (aoff)
+    v.classes.push_back("blocks_at_unaligned_address");
   static const char *mn[5] = {"ECB", "CBC", "CTR", "CFB", "OFB"};
   v.nontrivial = nb >= 2;
   v.classes.push_back(mn[mode % 5]);
@@ -28,6 +31,7 @@ static Verdict run_c10(const Case &c)
   {
     Case id;
     id.seti("m", mode);
+    id.seti("ao", aoff);
     id.set("k", hex(key));
     id.set("iv", hex(iv));
     id.seti("nb", (long long)nb);
@@ -47,7 +51,7 @@ static Verdict run_c10(const Case &c)
     return bad("factory returned no encryptor");
   bytes got = in;
   for (size_t i = 0; i < nb; i++)
-    wapi::mode_run(e, got.data() + 16 * i);
+    wapi::mode_run(e, got.data() + 16 * i, aoff);
   wapi::mode_free(e);
   if (got != want)
   {
@@ -61,7 +65,7 @@ static Verdict run_c10(const Case &c)
     return bad("factory returned no decryptor");
   bytes back = got;
   for (size_t i = 0; i < nb; i++)
-    wapi::mode_run(d, back.data() + 16 * i);
+    wapi::mode_run(d, back.data() + 16 * i, aoff);
   wapi::mode_free(d);
   if (back != in)
   {
@@ -75,7 +79,7 @@ static Verdict run_c10(const Case &c)
   void *d2 = wapi::mode_new(false, mode, key.data(), iv.data());
   bytes gd = in;
   for (size_t i = 0; i < nb; i++)
-    wapi::mode_run(d2, gd.data() + 16 * i);
+    wapi::mode_run(d2, gd.data() + 16 * i, aoff);
   wapi::mode_free(d2);
   if (gd != wantd)
     return bad("decryptor output differs from SP 800-38A decryption of arbitrary data");
@@ -87,9 +91,9 @@ static Verdict run_c10(const Case &c)
     bytes ga = in, gb = in;
     for (size_t i = 0; i < nb; i++)
     {
-      wapi::mode_run(a, ga.data() + 16 * i);
+      wapi::mode_run(a, ga.data() + 16 * i, aoff);
       if (i % 2 == 0)
-        wapi::mode_run(b, gb.data() + 16 * (i / 2));
+        wapi::mode_run(b, gb.data() + 16 * (i / 2), aoff);
     }
     wapi::mode_free(a);
     wapi::mode_free(b);
@@ -131,6 +135,8 @@ static Case gen_c10()
   c.seti("blocks", nb);
   c.set("pseed", std::to_string(g::u64()));
   c.seti("pstyle", g::range(0, 10) < 7 ? 0 : g::range(1, 4));
+  if (g::coin(25))
+    c.seti("aoff", g::range(1, 16));
   return c;
 }
 
